@@ -540,6 +540,8 @@ def oracle(case, pre, post, t0):
             parents.add(cp[:i])
     for p in set(pre) | set(post):
         if p in footprint:
+            if p[-1].endswith("#new") and p not in pre and p in post and p[:-1] + (p[-1][:-4],) in footprint:
+                bad.append(("new-sibling-left-behind", {"path": p, "after": _short(post[p])}))
             continue
         a, b = pre.get(p), post.get(p)
         if a is None and b is not None and b[0] == "dir" and p in parents:
@@ -591,6 +593,16 @@ def k_dir_mtime(case, dev):
 def k_sym_over_dir(case, dev):
     """a symlink entry whose location holds a directory and <location>/<target> is a directory"""
     return any(e["kind"] == "sym" and tuple(e["loc"]) == tuple(dev["entry"]) for e in case["cset"])
+
+
+@known("new-sibling-left-behind")
+def k_new_left(case, dev):
+    """two linkable file entries of one hard-link group whose locations are the same file on the live
+    filesystem (aliased through a symlinked directory): do_link's rename of two names of one inode is a
+    no-op, so '<name>#new' stays"""
+    files = [e for e in case["cset"] if e["kind"] == "file" and "hl" in e]
+    return any(a is not b and a["hl"] == b["hl"] and a["loc"][-1] == b["loc"][-1] for a in files for b in files) \
+        and any(w == "sym-dir" for _, w in case["pre"])
 
 
 @known("stale-new-reused")
